@@ -135,6 +135,11 @@ def r345_body(ctx):
             ctx.check("R3", "%s|blanks-masked|%s" % (qn, tag), True if okm else (False if field == l_ else None), "the DataArray holds the array masked where blank", bad="blank sentinels are left in the data", fn=qn)
         else:
             ctx.check("R3", "%s|field-is-file-body|%s" % (qn, tag), True if field == l_ else None, "the DataArray holds the parsed body", fn=qn)
+        # the checked / returned array is the body as parsed: reshaping it to the header's shape first makes the shape test vacuous
+        reshaped = [x for x in walk(field) if isinstance(x, tuple) and x and x[0] == "call" and Q.reshape_of(x) is not None and any(y == l_ for y in walk(Q.reshape_of(x)[0]))
+                    and any(y == h for y in walk(Q.reshape_of(x)[1]))] if isinstance(field, tuple) else []
+        ctx.check("R4", "%s|body-not-reshaped-to-header|%s" % (qn, tag), False if reshaped else True, "the parsed body reaches the integrity check and the grid in the shape it has in the file",
+                  bad="the body is reshaped to the header's (nrows, ncols) before the integrity check: a file whose body has another shape with the same number of values is re-arranged instead of refused", fn=qn)
         # integrity first
         oki = None
         if ic:
